@@ -9,7 +9,8 @@ RULE = ('cases: all-atom outputs of the resolver for (i) C01 strings (charged at
         'multi-level strings, (iii) ambiguous fragment sets with surplus descriptors (polymers via multipliers, '
         'rings of identical units, branched grafts, shared atoms), (iv) fragments with explicitly written [H] '
         'atoms and annotated hydrogens, (v) strings with free polyatomic ions ([NH4+], [OH-], [OH3+] ...) as own '
-        'fragments on order-0 edges; sampler outputs are covered by C16. Oracle (output only, independent '
+        'fragments on order-0 edges, (vi) two-atom beads in aromatic shorthand ([$]cc[$]) alone, in chains and in rings; '
+        'an order-1.5 bond must lie on a ring; sampler outputs are covered by C16. Oracle (output only, independent '
         'valence table C4 N3,5 O2 S2,4,6 P3,5 halogens 1, iso-electronic shift for charges, aromatic atom = sigma '
         'bonds + 1): heavy bond sum s; if some usual valence v >= s exists the atom carries exactly min(v)-s '
         'hydrogens; every H has exactly one neighbour, bond order 1, and copies that atom\'s fragid, fragname and '
@@ -107,6 +108,30 @@ def gen_ions(R, tier):
                 features=sorted(set(case['features']) | {'free_polyatomic_ion'}))
 
 
+BEADS = ['[$]cc[$]', '[$]cc[$]', '[$]c(C)c[$]', '[$]cn[$]', '[$]c(O)c[$]', '[$]cc([$])']
+
+
+def gen_aromatic_beads(R, tier):
+    """two-atom beads written in aromatic shorthand (the documented coarse mapping of benzene: three [$]cc[$]
+    beads in a ring): alone, as open chains (conjugated, not aromatic), as rings of 3-4 beads, next to another molecule"""
+    n = R.choice([1, 1, 2, 3, 3, 4])
+    names = ['A', 'B']
+    beads = {nm: R.choice(BEADS) for nm in names}
+    seq = [R.choice(names) for _ in range(n)]
+    ring = n >= 3 and R.chance(0.6)
+    body = ''.join('[#%s]' % x for x in seq)
+    if ring:
+        body = '[#%s]1' % seq[0] + ''.join('[#%s]' % x for x in seq[1:]) + '1'
+    extra = ''
+    if R.chance(0.4):
+        body += '.[#M]'
+        extra = ',#M=' + R.choice(['CCO', 'O', '[Na+]', 'c1ccccc1', '[$]cc[$]'])
+    used = sorted(set(seq))
+    s = '{%s}.{%s%s}' % (body, ','.join('#%s=%s' % (nm, beads[nm]) for nm in used), extra)
+    return dict(input=s, last_all_atom=True, legacy=True, kind='aromatic_beads', dedicated=False, nlevels=1,
+                features=['aromatic_shorthand_beads', 'beads:%d' % n] + (['bead_ring'] if ring else ['bead_chain']))
+
+
 def gen_sampler(R, tier):
     from .. import sampler
     cfg = sampler.gen_cfg(R, tier, all_atom=True)
@@ -137,6 +162,8 @@ def gen_inner(R, tier):
         return gen_sampler(R, tier)
     if r < 0.47:
         return gen_ions(R, tier)
+    if r < 0.51:
+        return gen_aromatic_beads(R, tier)
     while True:
         case = resgen.gen_resolvable(R, tier, kinds=('fragset', 'fragset', 'cut', 'cut', 'levels'))
         if case is None or case['last_all_atom']:
@@ -149,7 +176,7 @@ def nontrivial(case):
     f = set(case['features'])
     if case['kind'] == 'sampler':
         return case.get('_steps', 0) >= 1
-    return case['kind'] in ('fragset', 'explicit_h', 'weighted', 'h_caps', 'ions') or bool(f & {'charged_at_cut', 'aromatic_cut'})
+    return case['kind'] in ('fragset', 'explicit_h', 'weighted', 'h_caps', 'ions', 'aromatic_beads') or bool(f & {'charged_at_cut', 'aromatic_cut'})
 
 
 def key(case):
@@ -183,6 +210,7 @@ def oracle(case):
     def step(lv, cg, fine, templates, all_atom):
         if all_atom:
             invariants.check_valence(fine, 'level %d: ' % lv)
+            invariants.check_aromatic_bonds_in_rings(fine, 'level %d: ' % lv)
             last['fine'] = fine
     run_steps(case, step)
     if case['kind'] == 'h_caps' and 'fine' in last:
